@@ -6,11 +6,39 @@ suite passes with it. meta.json gets what was run and which checks caught the ch
 import json, os, re, shutil, sys
 SRC, DST = os.environ.get("MUT", "/tmp/mut") + "/out", "/verif/seeded"
 kept = []
+
+
+def matrix(d):
+    caught = {}
+    for tier in ("quick", "thorough"):
+        mp = os.path.join(d, "matrix_%s.txt" % tier)
+        if os.path.isfile(mp):
+            rows = {}
+            for line in open(mp):
+                m = re.match(r"(C\d+) rc=(\d+)(.*)", line)
+                if m:
+                    rows[m.group(1)] = {"rc": int(m.group(2)), "no_failing_input": "no-failing-input-found" in m.group(3)}
+            if rows:
+                caught[tier] = {"caught_by": sorted(k for k, r in rows.items() if r["rc"] == 1),
+                                "with_concrete_replay": sorted(k for k, r in rows.items() if r["rc"] == 1 and not r["no_failing_input"]),
+                                "checks_run": len(rows)}
+    return caught
+
+
 for pid in sorted(os.listdir(SRC)):
-    for v in ("A", "B", "C", "D"):
+    if not re.match(r"C\d+$", pid):
+        continue
+    for v in ("A", "B", "C", "D", "E", "F"):
         d = os.path.join(SRC, pid, v)
         cj = os.path.join(d, "confirm.json")
         if not (os.path.isfile(cj) and os.path.isfile(os.path.join(d, "patch.diff")) and os.path.isfile(os.path.join(d, "meta.json"))):
+            # a change kept earlier, re-run against the current checks: refresh the matrix only
+            mj = os.path.join(DST, "%s-%s" % (pid, v), "meta.json")
+            if os.path.isfile(mj) and matrix(d):
+                meta = json.load(open(mj))
+                meta["checks"] = matrix(d)
+                json.dump(meta, open(mj, "w"), indent=1, sort_keys=True)
+                print("matrix refreshed", pid, v)
             continue
         c = json.load(open(cj))
         ok = c["demo_without_rc"] == 0 and c["demo_with_rc"] != 0 and c["build_rc"] == 0 and c["suite_with_rc"] == 0
@@ -31,18 +59,7 @@ for pid in sorted(os.listdir(SRC)):
         meta["confirmed"] = {
             "how": "tools/confirm_mutant.sh in a scratch worktree of /repo HEAD: demo_cmd without the patch, demo_cmd with the patch, go build of the library packages, then the unedited suite (go test ./core/... ./token/... ./hlfcreator/... ./version/... ./test/unit/...) with the patch and without the demo files",
             "result": c}
-        caught = {}
-        for tier in ("quick", "thorough"):
-            mp = os.path.join(d, "matrix_%s.txt" % tier)
-            if os.path.isfile(mp):
-                rows = {}
-                for line in open(mp):
-                    m = re.match(r"(C\d+) rc=(\d+)(.*)", line)
-                    if m:
-                        rows[m.group(1)] = {"rc": int(m.group(2)), "no_failing_input": "no-failing-input-found" in m.group(3)}
-                caught[tier] = {"caught_by": sorted(k for k, r in rows.items() if r["rc"] == 1),
-                                "with_concrete_replay": sorted(k for k, r in rows.items() if r["rc"] == 1 and not r["no_failing_input"]),
-                                "checks_run": len(rows)}
+        caught = matrix(d)
         if caught:
             meta["checks"] = caught
             meta["checks_how"] = "tools/mutall.sh: patch applied in a scratch worktree, every registered check run from a copy of /verif with VERIF_REPO pointing at the worktree"
